@@ -1060,6 +1060,31 @@ def run_handshake(ctx, p, i, kl, dh, child_dh=None, proto=3, rekey_ike=True):
             for (sa, is_init, kr, pr) in child_keyrings:
                 role = 2 if sa is a else 1
                 obs.append((['child', csuite + [role, cni, cnr, cg, skd]], 'e2e-child-create', kr, cf))
+            # crossing CREATE_CHILD_SA exchanges with PFS: each side answers the other's request while its own is
+            # outstanding; the KEYMAT of each exchange must come from the DH secret of THAT exchange
+            if child_dh:
+                del child_keyrings[:]
+                nsec = len(secrets)
+                x1 = a.process_acquire(tsi, tsr, 1)
+                y1 = b.process_acquire(tsr, tsi, 2)
+                y2 = a.process_message(y1)
+                x2 = b.process_message(x1)
+                e1 = a.process_message(x2)
+                e2 = b.process_message(y2)
+                if e1 is not None or e2 is not None or len(child_keyrings) != 4 or len(secrets) != nsec + 4:
+                    raise RuntimeError(f'crossing CREATE_CHILD_SA exchanges did not complete for suite {(p, i, kl, dh, child_dh)}')
+                rx1, rx2 = Message.parse(x1, crypto=a.my_crypto), Message.parse(x2, crypto=b.my_crypto)
+                ry1, ry2 = Message.parse(y1, crypto=b.my_crypto), Message.parse(y2, crypto=a.my_crypto)
+                xn = (bytes(rx1.get_payload(Payload.Type.NONCE, True).nonce), bytes(rx2.get_payload(Payload.Type.NONCE, True).nonce))
+                yn = (bytes(ry1.get_payload(Payload.Type.NONCE, True).nonce), bytes(ry2.get_payload(Payload.Type.NONCE, True).nonce))
+                # secrets in order: a answers Y, b answers X, a completes X, b completes Y; a responder computes
+                # its secret with a fresh key pair and the KE it received: that value defines the exchange
+                gy, gx = secrets[nsec][1], secrets[nsec + 1][1]
+                # child_keyrings in order: a (responder of Y), b (responder of X), a (initiator of X), b (initiator of Y)
+                for (sa, is_init, kr, pr), (nn, g) in zip(child_keyrings, [(yn, gy), (xn, gx), (xn, gx), (yn, gy)]):
+                    role = 2 if is_init else 1
+                    cf = dict(prf=p, proto=proto, integ=i, kl=kl, ni=nn[0], nr=nn[1], g=g, skd=skd)
+                    obs.append((['child', csuite + [role, nn[0], nn[1], g, skd]], 'e2e-child-crossing', kr, cf))
             # IKE_SA rekey initiated by the original responder (roles swap: b is the initiator of the new IKE_SA)
             if rekey_ike:
                 nsec = len(secrets)
